@@ -109,7 +109,7 @@ func (n NoteEvent) Kind() EventKind {
 
 func (n NoteEvent) Title() string {
 	if n.Kind() == EventTitleChanged {
-		return getNewTitle(n.Body)
+		return text.CleanupOneLine(getNewTitle(n.Body))
 	}
 	return text.CleanupOneLine(n.Body)
 }
